@@ -921,20 +921,30 @@ func parseNumberLiteral(literal string) (value interface{}, err error) {
 	err = parseIntErr
 
 	if err.(*strconv.NumError).Err == strconv.ErrRange {
-		if len(literal) > 2 &&
-			literal[0] == '0' && (literal[1] == 'X' || literal[1] == 'x') &&
-			literal[len(literal)-1] != 'n' {
-			// Could just be a very large number (e.g. 0x8000000000000000)
-			var value float64
-			literal = literal[2:]
-			for _, chr := range literal {
-				digit := digitValue(chr)
-				if digit >= 16 {
+		if len(literal) > 2 && literal[0] == '0' && literal[len(literal)-1] != 'n' {
+			base := 0
+			switch literal[1] {
+			case 'x', 'X':
+				base = 16
+			case 'o', 'O':
+				base = 8
+			case 'b', 'B':
+				base = 2
+			}
+			if base != 0 {
+				// Could just be a very large number (e.g. 0x8000000000000000): the nearest float64
+				for _, chr := range literal[2:] {
+					if digitValue(chr) >= base {
+						goto error
+					}
+				}
+				bigInt, ok := new(big.Int).SetString(literal[2:], base)
+				if !ok {
 					goto error
 				}
-				value = value*16 + float64(digit)
+				value, _ := new(big.Float).SetInt(bigInt).Float64()
+				return value, nil
 			}
-			return value, nil
 		}
 	}
 
